@@ -702,9 +702,21 @@ class CompilerPassGenerateCode(CompilerPass):
                 or isinstance(value_name, str)
                 and value_name in symbols.__dict__
             ):
-                from .types import _BaseStructure
+                from .types import _BaseStructure, _BaseStructures
 
                 data.result = value
+
+                def keep_while_named(reg):
+                    # the register holding an id / a name hash is in use wherever the name is used
+                    if any(isinstance(w, nodes.FunctionDef) for w in reg.nodes_writing):
+                        # the result register of a function: its readers are the calls (they decide
+                        # about inlining), so the value is kept in a register of its own
+                        own = self.get_intermediate_symbol(node, True)
+                        data.add(IC10("move", [reg], own))
+                        reg = own
+                    reg._is_intermediate = False
+                    reg.nodes_reading.extend(self.data.get_sym_data(target).nodes_reading)
+                    return reg
 
                 if isinstance(value, _BaseStructure):
                     if value._alias == True:
@@ -712,11 +724,11 @@ class CompilerPassGenerateCode(CompilerPass):
                         data.add(IC10("alias", [target.name, value._dev_id._id]))
                         value._dev_id._id = target.name
                     elif isinstance(value._dev_id._id, IC10Register):
-                        value._dev_id._id._is_intermediate = False
-                        # the register holding the id is in use wherever the name is used
-                        value._dev_id._id.nodes_reading.extend(
-                            self.data.get_sym_data(target).nodes_reading
-                        )
+                        value._dev_id._id = keep_while_named(value._dev_id._id)
+                elif isinstance(value, _BaseStructures) and isinstance(
+                    value._name, IC10Register
+                ):
+                    value._name = keep_while_named(value._name)
 
                 structures = self.data.structures
                 scope_name = get_scope_name(target)
